@@ -64,7 +64,16 @@ def gen_history(rng, n=(5, 10), fixed_p3=False):
                     d = CROSS[s]
                 items.append(["move", s, d])
                 tracked.remove(s); tracked.append(d)
-        elif k < 0.85 and tracked:
+        elif k < 0.80 and tracked:
+            # another path gets the bytes of an EARLIER version of a tracked path (same extension: one object), is tracked
+            # and untracked again: untrack may delete only what nothing else refers to, in any version
+            olds = [(p, i[2]) for p in tracked for i in items if i[0] == "W" and i[1] == p][:-1]
+            fresh = [q for q in PATHS if q not in tracked and q not in [i[1] for i in items if i[0] == "W"]]
+            cand = [(p, hx_, q) for p, hx_ in olds for q in fresh if R.ext_of(q) == R.ext_of(p)]
+            if cand:
+                p, hx_, q = rng.choice(cand)
+                items.append(["W", q, hx_]); items.append(["track", [q]]); items.append(["untrack", [q]])
+        elif k < 0.87 and tracked:
             items.append(["D", rng.choice(tracked)]); items.append(["recheck", []])
         else:
             items.append(["recheck", []])
@@ -121,6 +130,8 @@ def run_history(xvc, h):
                 r = rp.xvc("file", "track", "--force", *it[1])
             elif k == "recheck":
                 r = rp.xvc("file", "recheck", *it[1])
+            elif k == "untrack":
+                r = rp.xvc("file", "untrack", *it[1])
             elif k in ("copy", "move"):
                 if R.ext_of(it[1]) != R.ext_of(it[2]) and not it[2].endswith("/"):
                     res["cross_ext"] = True
@@ -139,8 +150,11 @@ def run_history(xvc, h):
                     addr = "%s/%s" % (dg, R.ext_of(p))
                     if addr not in o["objs"]:
                         res["problems"].append(("version-lost", "after %s: version %s of %s has no cache object" % (it, dg[:14], p)))
-            # committing never deletes or alters an object
+            # committing never deletes or alters an object (untrack may delete: what it must keep is judged by the
+            # version-lost clause above -- every version of every still tracked path has its object)
             for a, e in prev_objs.items():
+                if a not in o["objs"] and k == "untrack":
+                    continue
                 if a not in o["objs"]:
                     res["problems"].append(("object-deleted", "after %s: cache object %s disappeared" % (it, a)))
                 elif o["objs"][a][3] != e[3]:
